@@ -105,8 +105,8 @@ def stripPrefix? (p s : List Char) : Option (List Char) :=
   if p.isPrefixOf s then some (s.drop p.length) else none
 
 /-- the loop over `ianaHashAlgorithms` in `SaslHtMechanism::fromString`: every table entry that is a prefix of
-what is left is consumed and overwrites the algorithm (the C++ loop has no `break` unless the translator
-reports one) -/
+what is left is consumed; whether the loop then stops (`break`, since commit 0f385bc) or goes on and lets a later
+entry overwrite the algorithm is read from the source by the translator (`htHashLoopBreaks`) -/
 def htHashLoop : List String → Nat → List Char → Option Nat → List Char × Option Nat
   | [], _, s, alg => (s, alg)
   | nm :: rest, i, s, alg =>
@@ -158,12 +158,6 @@ hash that is a valid index of the `ianaHashAlgorithms` table -/
 def allMechs : List Mech :=
   Simple.all.map Mech.simple ++ ScramAlg.all.map Mech.scram ++
     (List.range ianaHashNames.length).flatMap (fun h => Cb.all.map (Mech.ht h))
-
-/-- the name does not parse, or it is exactly the `toString` of what it parses to -/
-def canonicalName (n : String) : Bool :=
-  match fromName n with
-  | none => true
-  | some m => decide (toName m = n)
 
 /-! ## Credentials and configuration -/
 
